@@ -46,7 +46,7 @@ func c09Alphabet(self, other uint64) []c09Op {
 }
 
 func runC09(c *fw.Ctx) {
-	c.Rule = "(A) every sequence of <=4 (quick) / <=5 (thorough) mutator calls from a 14-call alphabet (session/subscription/retained create and delete, DeleteSession, DeletePeer(self|other) for subscriptions and sessions) on node A, after a preamble in which another peer P has replicated one session with two subscriptions to A and to follower B; (B) seeded sequences of 5-30 calls over 4+ sessions x 5 filters x 3 topics x 2 peers with bulk removals touching 0, 1 and many entries. After EACH call the broadcasts queued by A are drained and delivered to B; B must list exactly what A lists, and a call that changed A's listing must have queued a broadcast. distinct = call sequence; non-trivial = contains a bulk removal or two calls on the same key"
+	c.Rule = "(A) every sequence of <=4 (quick) / <=5 (thorough) mutator calls from a 14-call alphabet (session/subscription/retained create and delete, DeleteSession, DeletePeer(self|other) for subscriptions and sessions) on node A, after a preamble in which another peer P has replicated one session with two subscriptions to A and to follower B; (B) seeded sequences of 5-30 calls over 4+ sessions x 5 filters x 3 topics x 2 peers with bulk removals touching 0, 1 and many entries. (C) retained-message Set/Delete sequences under a clock that advances only every 2-4 calls. After EACH call the broadcasts queued by A are drained and delivered to B; B must list exactly what A lists, and a call that changed A's listing must have queued a broadcast. distinct = call sequence; non-trivial = contains a bulk removal or two calls on the same key"
 	c.Assume("single clock domain (a monotone counter installed through hook H3): C09 is about one node's changes; clock offsets are C08's subject")
 	var tick int64
 	distributed.VerifSetClock(func() int64 { tick++; return 1000 + tick })
@@ -186,6 +186,49 @@ func runC09(c *fw.Ctx) {
 			c.Sample(map[string]interface{}{"part": "B", "calls": names})
 		}
 	}
+	// ---- part C: retained-message changes under a clock that does not advance between calls --------
+	// (coarse clocks exist; two publishes on one topic within one tick must still reach the follower)
+	nC := c.Pick(1500, 30000)
+	for s := 0; s < nC; s++ {
+		rg := c.SubRng("c09/stall", s)
+		var t int64 = 5000
+		stall := 2 + rg.Intn(3)
+		calls := 0
+		distributed.VerifSetClock(func() int64 {
+			calls++
+			if calls%stall == 0 {
+				t++
+			}
+			return t
+		})
+		a, b := kit.NewReplica(1), kit.NewReplica(3)
+		names := []string{}
+		steps := 3 + rg.Intn(8)
+		ok := true
+		for i := 0; i < steps && ok; i++ {
+			topic := []string{"mp/t", "mp/t/u"}[rg.Intn(2)]
+			before := a.Canon()
+			if rg.Intn(3) > 0 {
+				v := fmt.Sprintf("v%d", i)
+				a.S.Topics().Set(&packet.Publish{Header: &packet.Header{Retain: true}, Topic: []byte(topic), Payload: []byte(v)})
+				names = append(names, "topics.Set("+topic+"="+v+")")
+			} else {
+				a.S.Topics().Delete([]byte(topic))
+				names = append(names, "topics.Delete("+topic+")")
+			}
+			bs := a.Drain()
+			for _, bc := range bs {
+				b.Deliver(bc)
+			}
+			c.Observe("broadcasts_delivered", len(bs))
+			ok = check("C(stalling clock)", names, a, b, before, len(bs))
+		}
+		c.Case(fmt.Sprintf("C|%d|%v", stall, names), true)
+		if s < 1 {
+			c.Sample(map[string]interface{}{"part": "C", "clock_advances_every_n_calls": stall, "calls": names})
+		}
+	}
+	distributed.VerifSetClock(func() int64 { tick++; return 1000 + tick })
 	c.Floor("broadcasts_delivered", 1000)
 }
 
